@@ -28,6 +28,10 @@ def goenv():
 # ------------------------------------------------------------------ overlay + build
 
 RT_EDITS = [
+    # per-process random hash keys make the iteration order of maps with 8 or more entries differ from process to
+    # process (the per-map seed alone is not enough): constant keys in simulation builds
+    ('alg.go', '\tfor i := range key {\n\t\tkey[i] = bootstrapRand()\n\t}\n', '\tfor i := range key {\n\t\tkey[i] = 0x9e3779b97f4a7c15 * uint64(i+1) // verif: constant instead of bootstrapRand()\n\t}\n'),
+    ('alg.go', '\tfor i := range hashkey {\n\t\thashkey[i] = uintptr(bootstrapRand())\n\t}\n', '\tfor i := range hashkey {\n\t\thashkey[i] = uintptr(0x9e3779b97f4a7c15 * uint64(i+1)) // verif: constant\n\t}\n'),
     ('select.go', '\t\tj := cheaprandn(uint32(norder + 1))\n', '\t\tj := simSelectRandn(uint32(norder + 1))\n'),
     ('time.go', '\t\t\tt.rand = cheaprand()\n', '\t\t\tt.rand = simTimerRand()\n'),
     ('rand.go', 'func maps_rand() uint64 {\n\treturn rand()\n}', 'func maps_rand() uint64 {\n\tif simOn {\n\t\treturn simMix(&simMapState)\n\t}\n\treturn rand()\n}'),
